@@ -220,7 +220,7 @@ Section Inv.
     intros (Hrd & Hmx & [Hrun1 Hrun2] & Hw & _). unfold holder_can_step.
     destruct (writer s) as [[|w]|] eqn:Hwr.
     - (* Run inside updateBest *)
-      intros obs. unfold PoolWait.step. rewrite (Hrun1 eq_refl). unfold is_writer. rewrite Hwr. discriminate.
+      intros obs old. unfold PoolWait.step. rewrite (Hrun1 eq_refl). unfold is_writer. rewrite Hwr. discriminate.
     - (* waiter w inside subscribe: MasterHead() of the best connection never blocks *)
       assert (Hpc : wpc s w = WSubL) by (apply Hw; reflexivity).
       unfold PoolWait.step. rewrite Hpc. unfold is_writer. rewrite Hwr, Nat.eqb_refl.
@@ -565,15 +565,32 @@ Section Inv.
     induction 1 as [|s1 l s2 _ IH Hs]; [lia|]. pose proof (head_monotone _ _ _ c Hs). lia.
   Qed.
 
+  (** a refresh of the best connection inside the protocol: whatever heads the first loop of
+      updateBest read (not above the current ones: heads only rise), the new bestConn is the
+      property's choice among the connections that are alive and at most one block behind
+      the newest head the first loop saw *)
+  Lemma first_read_le heads old i : (first_read heads old i <= heads i)%N.
+  Proof. unfold first_read. lia. Qed.
+
+  Theorem refresh_choice s obs old s' :
+    step s (LUpdDone obs old) = Some s' ->
+    let cs1 := mk_conns nconns (first_read (head s) old) obs in
+    let cs2 := mk_conns nconns (head s) obs in
+    best s' = update_best2 strat cs1 cs2 (best s) /\
+    is_choice strat (fun c => c_alive c = true /\ (newest cs1 - seq32 c <= 1)%N) cs2 (best s) (best s').
+  Proof.
+    intros Hs cs1 cs2. step_inv Hs; guards; sred. split; [reflexivity|]. apply update_best2_spec.
+  Qed.
+
   (** ---- 5. the best connection is a connection of the pool; subscribe never
           dereferences nil once the pool has a connection ---- *)
 
   Lemma mk_conns_length heads obs : length (mk_conns nconns heads obs) = nconns.
   Proof. unfold mk_conns. rewrite map_length, seq_length. reflexivity. Qed.
 
-  Lemma update_best_some cs b : exists i, update_best strat cs (Some b) = Some i.
+  Lemma update_best_some cs1 cs b : exists i, update_best2 strat cs1 cs (Some b) = Some i.
   Proof.
-    unfold update_best. destruct cs as [|c t]; [eauto|].
+    unfold update_best2. destruct cs as [|c t]; [eauto|].
     destruct strat; [| |eauto].
     - destruct (find_best_ping _ _ _ _) as [[i r]|]; eauto.
     - destruct (find_first_working _ _ _) as [i|]; eauto.
@@ -591,10 +608,10 @@ Section Inv.
     all: try solve [exfalso; congruence].
     (* updateBest *)
     destruct (best s) as [b|] eqn:Hb; [|congruence].
-    destruct (update_best_some (mk_conns nconns (head s) obs) b) as [i Hi]. rewrite Hi.
+    destruct (update_best_some (mk_conns nconns (first_read (head s) old) obs) (mk_conns nconns (head s) obs) b) as [i Hi]. rewrite Hi.
     split; [discriminate|]. split; [|exact Hnp].
     intros b' [= <-].
-    destruct (update_best_range _ _ _ _ Hi) as [[= <-]|Hr]; [apply Hlt; reflexivity|].
+    destruct (update_best2_range _ _ _ _ _ Hi) as [[= <-]|Hr]; [apply Hlt; reflexivity|].
     rewrite mk_conns_length in Hr. exact Hr.
   Qed.
 
